@@ -4,6 +4,15 @@
 // attach() sits between guard areas that are (a) poisoned for AddressSanitizer, so that any
 // read or write next to the attached range is reported, and (b) filled with a pattern that is
 // re-read after every operation; the attached bytes themselves are compared with a pristine copy.
+//
+// Storage release (round 5): AddressSanitizer's allocation hooks keep a ledger of the blocks that
+// were allocated while a Buffer member function ran and are still live; their number is printed
+// as `live=<k>` in the internal section and must equal the number of variables that own storage
+// (a Buffer that drops its block without delete[] shows up at once, LeakSanitizer is off).
+//
+// Large sizes (round 5): a case whose `case` line carries the word `big` is printed in compact
+// form - size, the first and the last 8 bytes of the window - so that windows of more than 2^32
+// bytes over untouched (uncommitted) pages can be observed.
 #include "vh.hpp"
 #include <sanitizer/asan_interface.h>
 extern "C" size_t __sanitizer_get_allocated_size(const volatile void* p);   // libasan (header not shipped with gcc 12)
@@ -11,7 +20,22 @@ extern "C" size_t __sanitizer_get_allocated_size(const volatile void* p);   // l
 #include <nstd/Buffer.hpp>
 #undef private
 
-enum { MAXV = 64, MAXR = 256, GUARD = 32 };
+extern "C" int __sanitizer_install_malloc_and_free_hooks(void (*malloc_hook)(const volatile void*, size_t),
+                                                         void (*free_hook)(const volatile void*));
+
+enum { MAXV = 64, MAXR = 256, GUARD = 32, MAXLIVE = 1024 };
+
+// ---- ledger of blocks allocated inside Buffer member functions ---------------------------------
+static bool lib_active = false;
+static const volatile void* live[MAXLIVE];
+static int nlive = 0;
+static void on_malloc(const volatile void* p, size_t) { if(lib_active && p && nlive < MAXLIVE) live[nlive++] = p; }
+static void on_free(const volatile void* p)
+{
+  for(int i = 0; i < nlive; ++i) if(live[i] == p) { live[i] = live[--nlive]; return; }
+}
+struct Lib { Lib() { lib_active = true; } ~Lib() { lib_active = false; } };
+static bool big = false;           // compact dump (case configuration `big`)
 
 static Buffer* vars[MAXV];
 static int nv = 0;
@@ -63,7 +87,7 @@ static unsigned char* new_region(const char* hex, size_t& len)
 
 static void drop_all()
 {
-  for(int i = nv - 1; i >= 0; --i) { delete vars[i]; vars[i] = 0; }
+  for(int i = nv - 1; i >= 0; --i) { vars[i]->~Buffer(); free(vars[i]); vars[i] = 0; }
   nv = 0;
   for(int r = 0; r < nr; ++r) {
     ASAN_UNPOISON_MEMORY_REGION(regs[r].block, GUARD + regs[r].len + GUARD);
@@ -73,8 +97,14 @@ static void drop_all()
 }
 
 static bool rejected = false;      // an op named a variable that does not exist: the rest of the case is skipped
-static void begin(long, vh::Tok&) { drop_all(); rejected = false; }
-static void end(long) { drop_all(); }
+static void begin(long, vh::Tok& t)
+{
+  drop_all(); rejected = false; nlive = 0;
+  big = false;
+  for(int i = 2; i < t.n; ++i) if(!strcmp(t.v[i], "big")) big = true;
+}
+static void end(long) { drop_all(); nlive = 0; }
+static void* raw() { return malloc(sizeof(Buffer)); }     // the object itself is not Buffer's storage
 
 static void dump()
 {
@@ -84,13 +114,18 @@ static void dump()
     usize n = b.size();
     const byte* p = (const byte*)b;
     printf(" [ %llu : ", (unsigned long long)n);
-    for(usize k = 0; k < n && k < 100000; ++k) printf("%02x ", p[k]);
+    if(big && n > 16) {
+      for(usize k = 0; k < 8; ++k) printf("%02x ", p[k]);
+      printf(".. ");
+      for(usize k = n - 8; k < n; ++k) printf("%02x ", p[k]);
+    }
+    else for(usize k = 0; k < n && k < 3000000; ++k) printf("%02x ", p[k]);
     if(b.buffer) {
       byte t = *b.bufferEnd;                       // must be readable and zero
       if(t == 0) printf("T=ok ]"); else printf("T=bad:%02x ]", t);
     } else printf("T=ok ]");
   }
-  printf(" | %s", regions_ok() ? "R=ok" : "R=bad");
+  printf(" | %s live=%d", regions_ok() ? "R=ok" : "R=bad", nlive);
   for(int i = 0; i < nv; ++i) {
     Buffer& b = *vars[i];
     // cap= is what the public capacity() answers; it must be the private member the window arithmetic uses
@@ -131,28 +166,28 @@ static void op(long c, long, vh::Tok& t)
     printf("! not-accepted\n"); rejected = true; return;
   }
   const char* res = "-";
-  if(!strcmp(o, "new")) vars[nv++] = new Buffer;
-  else if(!strcmp(o, "newcap")) vars[nv++] = new Buffer(usz(t.v[1]));
-  else if(!strcmp(o, "newdata")) { size_t n; unsigned char* d = vh::unhex(t.v[1], n); vars[nv++] = new Buffer(d, n); free(d); }
-  else if(!strcmp(o, "newcopy")) { Buffer* b = new Buffer(*vars[v]); vars[nv++] = b; }
-  else if(!strcmp(o, "attach")) { size_t n; unsigned char* d = new_region(t.v[2], n); vars[v]->attach(d, n); }
-  else if(!strcmp(o, "asg")) *vars[v] = *vars[w];
-  else if(!strcmp(o, "assign")) { size_t n; unsigned char* d = vh::unhex(t.v[2], n); vars[v]->assign(d, n); free(d); }
-  else if(!strcmp(o, "prepend")) { size_t n; unsigned char* d = vh::unhex(t.v[2], n); vars[v]->prepend(d, n); free(d); }
-  else if(!strcmp(o, "prependb")) vars[v]->prepend(*vars[w]);
-  else if(!strcmp(o, "append")) { size_t n; unsigned char* d = vh::unhex(t.v[2], n); vars[v]->append(d, n); free(d); }
-  else if(!strcmp(o, "appendb")) vars[v]->append(*vars[w]);
-  else if(!strcmp(o, "resize")) vars[v]->resize(usz(t.v[2]));
-  else if(!strcmp(o, "reserve")) vars[v]->reserve(usz(t.v[2]));
+  if(!strcmp(o, "new")) { void* m = raw(); Lib on; vars[nv++] = new(m) Buffer; }
+  else if(!strcmp(o, "newcap")) { void* m = raw(); Lib on; vars[nv++] = new(m) Buffer(usz(t.v[1])); }
+  else if(!strcmp(o, "newdata")) { size_t n; unsigned char* d = vh::unhex(t.v[1], n); void* m = raw(); { Lib on; vars[nv++] = new(m) Buffer(d, n); } free(d); }
+  else if(!strcmp(o, "newcopy")) { void* m = raw(); Lib on; Buffer* b = new(m) Buffer(*vars[v]); vars[nv++] = b; }
+  else if(!strcmp(o, "attach")) { size_t n; unsigned char* d = new_region(t.v[2], n); Lib on; vars[v]->attach(d, n); }
+  else if(!strcmp(o, "asg")) { Lib on; *vars[v] = *vars[w]; }
+  else if(!strcmp(o, "assign")) { size_t n; unsigned char* d = vh::unhex(t.v[2], n); { Lib on; vars[v]->assign(d, n); } free(d); }
+  else if(!strcmp(o, "prepend")) { size_t n; unsigned char* d = vh::unhex(t.v[2], n); { Lib on; vars[v]->prepend(d, n); } free(d); }
+  else if(!strcmp(o, "prependb")) { Lib on; vars[v]->prepend(*vars[w]); }
+  else if(!strcmp(o, "append")) { size_t n; unsigned char* d = vh::unhex(t.v[2], n); { Lib on; vars[v]->append(d, n); } free(d); }
+  else if(!strcmp(o, "appendb")) { Lib on; vars[v]->append(*vars[w]); }
+  else if(!strcmp(o, "resize")) { Lib on; vars[v]->resize(usz(t.v[2])); }
+  else if(!strcmp(o, "reserve")) { Lib on; vars[v]->reserve(usz(t.v[2])); }
   // the source is n bytes at offset off inside the Buffer's own window
-  else if(!strcmp(o, "appendat")) vars[v]->append((const byte*)*vars[v] + usz(t.v[2]), usz(t.v[3]));
-  else if(!strcmp(o, "assignat")) vars[v]->assign((const byte*)*vars[v] + usz(t.v[2]), usz(t.v[3]));
-  else if(!strcmp(o, "prependat")) vars[v]->prepend((const byte*)*vars[v] + usz(t.v[2]), usz(t.v[3]));
-  else if(!strcmp(o, "rmfront")) vars[v]->removeFront(usz(t.v[2]));
-  else if(!strcmp(o, "rmback")) vars[v]->removeBack(usz(t.v[2]));
-  else if(!strcmp(o, "clear")) vars[v]->clear();
-  else if(!strcmp(o, "free")) vars[v]->free();
-  else if(!strcmp(o, "swap")) vars[v]->swap(*vars[w]);
+  else if(!strcmp(o, "appendat")) { Lib on; vars[v]->append((const byte*)*vars[v] + usz(t.v[2]), usz(t.v[3])); }
+  else if(!strcmp(o, "assignat")) { Lib on; vars[v]->assign((const byte*)*vars[v] + usz(t.v[2]), usz(t.v[3])); }
+  else if(!strcmp(o, "prependat")) { Lib on; vars[v]->prepend((const byte*)*vars[v] + usz(t.v[2]), usz(t.v[3])); }
+  else if(!strcmp(o, "rmfront")) { Lib on; vars[v]->removeFront(usz(t.v[2])); }
+  else if(!strcmp(o, "rmback")) { Lib on; vars[v]->removeBack(usz(t.v[2])); }
+  else if(!strcmp(o, "clear")) { Lib on; vars[v]->clear(); }
+  else if(!strcmp(o, "free")) { Lib on; vars[v]->free(); }
+  else if(!strcmp(o, "swap")) { Lib on; vars[v]->swap(*vars[w]); }
   else if(!strcmp(o, "eq")) {
     bool e = *vars[v] == *vars[w];
     bool ne = *vars[v] != *vars[w];
@@ -168,5 +203,6 @@ int main(int argc, char** argv)
 {
   const char* e = getenv("VERIF_NO_POISON");
   poison = !(e && *e == '1');
+  __sanitizer_install_malloc_and_free_hooks(on_malloc, on_free);
   return vh::run(argc, argv, begin, op, end);
 }
